@@ -797,7 +797,8 @@ def kind_value(k, depth):
     if k == "ctx":
         return ctx_strategy(depth)
     if k == "key":
-        return st.fixed_dictionaries({"remote_jid": _jid, "from_me": st.booleans(), "id": _text, "participant": _text})
+        # (the participant is only there for messages of a group: a one-to-one revoke has none)
+        return st.fixed_dictionaries({"remote_jid": _jid, "from_me": st.booleans(), "id": _text}, optional={"participant": _text})
     if k == "msg":
         return message_strategy(depth + 1)
     raise ValueError(k)
@@ -921,6 +922,7 @@ def _enum_each_kind():
         {"sticker": {"width": 64, "height": 64, "png_thumbnail": "8950", "dm": full_dm}},
         {"sender_key_distribution_message": {"group_id": "1-2@g.us", "axolotl_sender_key_distribution_message": "33" * 10}},
         {"protocol": {"key": {"remote_jid": "49@s.whatsapp.net", "from_me": True, "id": "X", "participant": "p"}, "type": 0}},
+        {"protocol": {"key": {"remote_jid": "49@s.whatsapp.net", "from_me": True, "id": "X1"}, "type": 0}},
     ]
     for i, s in enumerate(specs):
         yield {"sub": "attrs", "spec": s, "meta": {"incoming": True}, "edit": specs[(i + 1) % len(specs)], "edit_copy": bool(i % 2)}
